@@ -31,6 +31,10 @@ PROP = {
         'answer EXISTS with 1, so no key is pulled); its Retry path (handler stopped) is not modelled',
     ],
     'gaps': [
+        'C02_stable / C02_migrating assume AddrOk (distinct node addresses per proxy). The statement over *all* reachable '
+        'broker states is false of the code: add_proxy accepts equal node addresses and a proxy hosting both masters '
+        'then loses one master\'s ranges in the SETCLUSTER HashMap (proved negation C02_full_false_dup_node_address, '
+        'KNOWN-FINDING F02a, replay corpus/C02/route.f02a.ops, proposed fix .build/patches/f02a.diff)',
         'the (PreBlocking, PreCheck) pair is proved but not driven through the real code (the harness cannot hold '
         'blocking_done; routing at the source is the same code path as PreSwitch)',
         'timeout paths are outside Consistent: max_blocking_time expiry leads to (FinalSwitch, PreCheck), where source '
@@ -73,7 +77,9 @@ CHECK = {
             'the slot — owner, migration source or destination (C02_no_third_node). The phase enumeration is exact for '
             'the handshake transition system (C02_phase_pairs); outside it the (FinalSwitch, PreCheck) pair of the '
             'max_blocking_time path makes source and destination redirect to each other (C02_inconsistent_pingpong), '
-            'reproduced on the real code. Every run replays >= 24 store histories (scale-out, commit, failover, '
+            'reproduced on the real code. KNOWN-FINDING F02a: add_proxy accepts two equal node addresses; such a proxy '
+            'hosting both masters after a failover answers "slot not covered" for half of the slots although every proxy is '
+            'synced (C02_full_false_dup_node_address; generator class dup_node_address_failover). Every run replays >= 24 store histories (scale-out, commit, failover, '
             'failover mid-migration, scale-down, migration limit, forced path) through the real stack, walks the '
             'handshake through 7 gate levels, follows >= 18 000 client runs (one sweep of all 16384 slots) and compares '
             'every reply kind, MOVED target, executing node, task state and SETCLUSTER reply with the model.',
